@@ -34,10 +34,11 @@ type StructV struct{ f []Value }
 type ArrayV struct{ e []Value }
 
 type Object struct {
-	id   int
-	v    Value
-	t    types.Type
-	name string
+	id      int
+	v       Value
+	t       types.Type
+	name    string
+	allocFn *ssa.Function // function whose Alloc created the object (it may initialise it before publishing it)
 }
 
 type PtrV struct {
